@@ -574,6 +574,16 @@ impl FunctionCompiler<'_> {
                     assert!(!dest_ty.is_aggregate());
 
                     dest.write_all(res, *dest_ty, self.module, &mut self.builder);
+                } else if matches!(
+                    self.world_bodies[self.loc.file()][assign_body.value],
+                    hir::Expr::ArrayLiteral { .. } | hir::Expr::StructLiteral { .. }
+                ) {
+                    // a literal may read the location it is being assigned to
+                    // (`p = P.{ x = p.y, y = p.x }`), so it has to be built completely
+                    // before any byte of the destination is overwritten
+                    let value = self.compile_and_cast(assign_body.value, *dest_ty);
+
+                    dest.write_all(value, *dest_ty, self.module, &mut self.builder);
                 } else {
                     self.compile_and_cast_into_memory(assign_body.value, *dest_ty, dest);
                 }
